@@ -20,7 +20,7 @@ use crate::{Repository, TargetName};
 use aws_lc_rs::rand::SystemRandom;
 use chrono::{DateTime, Utc};
 use serde_json::Value;
-use snafu::{OptionExt, ResultExt};
+use snafu::{ensure, OptionExt, ResultExt};
 use std::borrow::Cow;
 use std::collections::HashMap;
 use std::convert::TryInto;
@@ -340,6 +340,12 @@ impl TargetsEditor {
         keyids: Vec<Decoded<Hex>>,
         threshold: NonZeroU64,
     ) -> Result<&mut Self> {
+        // A role that requires more signatures than it has keys can never be verified, so no
+        // client could load the resulting repository.
+        ensure!(
+            threshold.get() <= key_pairs.len() as u64,
+            error::InvalidThresholdSnafu
+        );
         self.add_key(key_pairs, None)?;
         self.new_roles
             .get_or_insert(Vec::new())
